@@ -138,6 +138,8 @@ Kind(n, t, kd) ==
   CASE kd = "v1"   -> Plain(n, t, 1, 1, 0)
     [] kd = "v1s"  -> Plain(n, t, 1, 2, 1)
     [] kd = "v2"   -> Plain(n, t, 2, 2, 0)
+    [] kd = "v1sL" -> LET mb == Plain(n, t, 1, 1, 1) IN [mb EXCEPT !.label = 1, !.v.label = 1]   \* seeded, made and verified in another context
+    [] kd = "v1C"  -> LET mb == Plain(n, t, 1, 2, 1) IN [mb EXCEPT !.label = 2, !.v.label = 2]   \* seeded, context = label + caller state
     [] kd = "v4c8" -> Plain(n, t, 4, 8, 0)
     [] kd = "xs"   -> [Plain(n, t, 1, 1, 0) EXCEPT !.mut = [kind |-> "scalar", slot |-> "d1", j |-> t - 1, how |-> "plus1"]]
     [] kd = "xp"   -> [Plain(n, t, 2, 4, 0) EXCEPT !.mut = [kind |-> "point", slot |-> "L", j |-> 0, how |-> "rand"]]
@@ -180,7 +182,7 @@ FamRecover ==
                     lb \in {0}, rng \in (IF Quick THEN {"chacha"} ELSE {"chacha", "zero"}), vs \in {0, 1, 2}, mode \in Modes,
                     mu \in {NoMut, [kind |-> "scalar", slot |-> "d1", j |-> 0, how |-> "plus1"], [kind |-> "point", slot |-> "A1", j |-> 0, how |-> "rand"]} }
       Mix == { Scen([x \in 1..Len(ks) |-> Kind(8, t, ks[x])], mode, NoSkew, FALSE) :
-                 ks \in UNION { [1..k -> {"v1", "v1s", "v2"}] : k \in 2..(IF Quick THEN 3 ELSE 4) }, t \in {1, 3, 6}, mode \in Modes }
+                 ks \in UNION { [1..k -> {"v1", "v1s", "v2", "v1sL", "v1C"}] : k \in 2..(IF Quick THEN 3 ELSE 4) }, t \in (IF Quick THEN {1, 6} ELSE {1, 3, 6}), mode \in Modes }
       \* a blinding vector with zero components (all of them, for the one commitment)
       Zb == { One([[Member(n, t, 1, 1, "mid", vs, 1, "none", "none", 1, ps_seed, 0, "chacha") EXCEPT !.v.seed = vs2] EXCEPT !.zb = 1], mode) :
                 n \in {8, 64}, t \in {1, 2, 6}, vs \in {"zero", "mid"}, ps_seed \in {0, 1}, vs2 \in {0, 1, 2}, mode \in Modes }
